@@ -41,9 +41,12 @@ func c08ValueMsg(tag string, from common.Address) (*evmtypes.MsgEthereumTx, *big
 	v := zz.AnyBigAmount(tag+".value", 128)
 	to := common.HexToAddress("0x3000000000000000000000000000000000000003")
 	var tx *ethtypes.Transaction
-	if zz.Choose(tag+".type", 2) == 0 {
+	switch zz.Choose(tag+".type", 3) {
+	case 0:
 		tx = ethtypes.NewTx(&ethtypes.LegacyTx{Nonce: 0, GasPrice: big.NewInt(1), Gas: 21000, To: &to, Value: v})
-	} else {
+	case 1:
+		tx = ethtypes.NewTx(&ethtypes.AccessListTx{ChainID: big.NewInt(11235), Nonce: 0, GasPrice: big.NewInt(1), Gas: 21000, To: &to, Value: v})
+	default:
 		tx = ethtypes.NewTx(&ethtypes.DynamicFeeTx{ChainID: big.NewInt(11235), Nonce: 0, GasFeeCap: big.NewInt(1), GasTipCap: big.NewInt(1), Gas: 21000, To: &to, Value: v})
 	}
 	msg := &evmtypes.MsgEthereumTx{}
@@ -84,9 +87,11 @@ func VerifC08_EthAnte() {
 
 	var msgs []sdk.Msg
 	sum := new(big.Int)
+	var vals []*big.Int
 	for i := 0; i < n; i++ {
 		m, v := c08ValueMsg("m"+string(rune('0'+i)), vSenders[0])
 		msgs = append(msgs, m)
+		vals = append(vals, new(big.Int).Set(v))
 		sum = new(big.Int).Add(sum, v)
 	}
 	// independent reference: locked = max(original - unlocked - delegated vesting... , unvested) is C08's LockedCoins harness;
@@ -96,6 +101,10 @@ func VerifC08_EthAnte() {
 	called := false
 	_, err := dec.AnteHandle(ctx, vTx{msgs: msgs}, false, vNext(&called))
 	zz.Assert(zz.Iff(err == nil, called), "the decorator either rejects or passes the transaction on")
+	// C18: the decoded message objects the ante handler has looked at are the ones the message server executes next
+	for i, m := range msgs {
+		zz.Assert(m.(*evmtypes.MsgEthereumTx).AsTransaction().Value().Cmp(vals[i]) == 0, "the ante handler leaves the transactions it checks as they were signed (the value of every message is unchanged)")
+	}
 	within := sdkmath.NewIntFromBigInt(sum).LTE(spendable)
 	zz.Assert(zz.Implies(called, within), "accepted => the messages' total value is within balance - locked")
 	zz.Assert(zz.Implies(zz.And(within, bal.IsPositive()), called), "a transaction within the spendable balance is not rejected by this check")
